@@ -89,6 +89,44 @@ class Ctx:
             err = p.stderr
         raise Infra("harness does not build against %s:\n%s" % (REPO, err[-3000:]))
 
+    def fuzz(self, target, seconds, seeds):
+        """Coverage-guided exploration with Go native fuzzing (harness/fuzz_test.go): runs `target` for
+        `seconds` on all cores, seeded with `seeds` (byte strings), and returns the inputs the engine
+        kept because they reached new code, plus any crasher it wrote - as byte strings, unjudged.
+        An engine that cannot run is a note, not a failure: the corpus is an extra source of inputs."""
+        hdir = os.path.join(self.work, "harness")
+        env = dict(os.environ, **GOENV)
+        seedfile = os.path.join(self.work, "fuzzseeds-%s.json" % target)
+        json.dump([list(x) for x in seeds], open(seedfile, "w"))
+        env["VERIF_FUZZ_SEEDS"] = seedfile
+        gocache = subprocess.run(["go", "env", "GOCACHE"], env=env, capture_output=True, text=True).stdout.strip()
+        cdir = os.path.join(gocache, "fuzz", "verifharness", target)
+        shutil.rmtree(cdir, ignore_errors=True)
+        crash = os.path.join(hdir, "testdata", "fuzz", target)
+        shutil.rmtree(crash, ignore_errors=True)
+        tags = ["-tags", "verif"] if getattr(self, "hooks_on", False) else []
+        cmd = ["go", "test"] + tags + ["-vet=off", "-run=^$", "-fuzz=^%s$" % target, "-fuzztime=%ds" % seconds, "."]
+        t0 = time.time()
+        try:
+            p = subprocess.run(cmd, cwd=hdir, env=env, capture_output=True, text=True, timeout=seconds + 600)
+            out = p.stdout + p.stderr
+        except subprocess.TimeoutExpired:
+            out = "timeout"
+        execs = re.findall(r"execs: (\d+)", out)
+        found = []
+        for d in (cdir, crash):
+            if os.path.isdir(d):
+                for f in sorted(os.listdir(d)):
+                    b = _go_corpus_bytes(open(os.path.join(d, f), "rb").read())
+                    if b is not None:
+                        found.append(b)
+        self.cov.setdefault("fuzzing", []).append(dict(target=target, seconds=seconds, seeds=len(seeds), execs=int(execs[-1]) if execs else 0,
+                                                       corpus=len(found), engine_failed="FAIL" in out, wall_s=round(time.time() - t0, 1)))
+        if not execs:
+            self.notes.append("fuzzing engine did not run for %s: %s" % (target, out[-300:]))
+        shutil.rmtree(cdir, ignore_errors=True)
+        return found
+
     def run_harness(self, cmd, cases, timeout=600, case_timeout_ms=5000):
         """Run cases (list of dicts with 'id') through `xjsh cmd`; returns {id: result}.
         A hang makes the harness exit 3 after reporting it; we restart with the remaining cases."""
@@ -348,6 +386,43 @@ class Ctx:
         sys.stdout.flush()
         self.cleanup()
         os._exit(1 if self.violations else 0)
+
+
+def _go_corpus_bytes(raw):
+    """A Go fuzzing corpus file ("go test fuzz v1" + one line `[]byte("...")`) -> bytes, or None."""
+    try:
+        lines = raw.decode("utf-8").split("\n")
+        if not lines[0].startswith("go test fuzz v1"):
+            return None
+        body = lines[1]
+        a, b = body.index('("') + 2, body.rindex('")')
+        q, out, i = body[a:b], bytearray(), 0
+        simple = {"a": 7, "b": 8, "f": 12, "n": 10, "r": 13, "t": 9, "v": 11, "\\": 92, "'": 39, '"': 34}
+        while i < len(q):
+            c = q[i]
+            if c != "\\":
+                out += c.encode("utf-8")
+                i += 1
+                continue
+            e = q[i + 1]
+            if e == "x":
+                out.append(int(q[i + 2:i + 4], 16))
+                i += 4
+            elif e == "u":
+                out += chr(int(q[i + 2:i + 6], 16)).encode("utf-8", "surrogatepass")
+                i += 6
+            elif e == "U":
+                out += chr(int(q[i + 2:i + 10], 16)).encode("utf-8", "surrogatepass")
+                i += 10
+            elif e in "01234567":
+                out.append(int(q[i + 1:i + 4], 8))
+                i += 4
+            else:
+                out.append(simple[e])
+                i += 2
+        return bytes(out)
+    except Exception:
+        return None
 
 
 def _key(i):
